@@ -22,7 +22,7 @@ def C01(rep, prog, tier):
     table = wrappers.dispatch(rep, ex)
     cls = _class_of(table, ("p-entailment", None))
     if cls:
-        pent.check(rep, ex, cls, strict=True, extended=False)
+        pent.check(rep, ex, cls, strict=True, extended=False, keys=True)
     wrappers.shortcut_guard(rep, ex)
     wrappers.shortcut_dominance(rep, ex)
     part.check_all(rep, ex, only=("inference.consistency_sat.consistency",))
@@ -312,6 +312,7 @@ def C05(rep, prog, tier):
         cinf.minima_roles(rep, ex, cls)
         cinf.query_encoding(rep, ex, cls)
         cinf.minima_encoding(rep, ex)
+        cinf.summation(rep, ex)
         cinf.encoding_relation(rep, ex, cls)
         cinf.answer(rep, ex, cls)
         cinf.key_discipline(rep, ex, cls)
@@ -348,6 +349,7 @@ def C17(rep, prog, tier):
     cinf.encoding_relation(rep, ex)
     cinf.key_discipline(rep, ex)
     cinf.minima_encoding(rep, ex)
+    cinf.summation(rep, ex)
     preocf.world_literals(rep, ex)
 
 
@@ -407,6 +409,7 @@ def C19(rep, prog, tier):
                        "the returned parameters are not decided")
     ex = Explorer(prog, rep)
     crev.check_all(rep, ex, tier)
+    cinf.minima_encoding(rep, ex)
 
 
 CHECKS = {"C19": C19, "C01": C01, "C02": C02, "C03": C03, "C04": C04, "C05": C05, "C06": C06, "C07": C07, "C09": C09, "C10": C10, "C11": C11, "C12": C12, "C13": C13, "C14": C14, "C16": C16, "C17": C17, "C18": C18, "C20": C20, "C15": C15}
